@@ -206,9 +206,10 @@ static void doOp(const Op& op) {
     simfs::mkdirs(M(n1));
     break; }
   case D_UNLINK: {
-    { Host h; C.outside0 = simfs::snapshot("o"); }
+    bool viaLink = false;   // a path that itself passes through a symbolic link (e.g. x -> ../o/sub, then x/y/z) names a directory outside on purpose
+    { Host h; C.outside0 = simfs::snapshot("o"); std::string full = T(n1); for (size_t i = 2; i < full.size(); ++i) if (full[i] == '/' && simfs::kindOf(full.substr(0, i)) == 'l') viaLink = true; }
     bool rec = op.a[2] % 2; bool ok = Directory::unlink(S(T(n1)), rec);
-    checkOutside(what);
+    if (!viaLink) checkOutside(what); else probe("unlink_path_through_link");
     { Host h; std::vector<simfs::Entry> post = simfs::list("t"); std::string pfx = n1 + "/";
       for (auto& p : pre) { if (p.path == n1 || p.path.compare(0, pfx.size(), pfx) == 0) continue; const simfs::Entry* now = 0; for (auto& e : post) if (e.path == p.path) now = &e; if (!now || now->kind != p.kind || now->data != p.data) fail("C19/unlink_touched_outside_subtree", "Directory::unlink('%s') changed '%s' which is outside that directory", n1.c_str(), p.path.c_str()); }
       if (ok && simfs::kindOf(T(n1)) != 0) fail("C19/unlink_result", "Directory::unlink('%s') returned true but the path still exists", n1.c_str()); }
